@@ -253,6 +253,64 @@ fn judge_line(case: &Case, l: &mut Local) {
     }
 }
 
+
+/// Segment against circle on integer data: centre, radius and both end points are integers, so the
+/// number of roots of |P + t(Q-P) - C|^2 = r^2 inside [0, 1] is decided in exact integer arithmetic,
+/// including end points lying exactly on the circle (r = 5 has twelve lattice points).
+fn judge_segment_exact(case: &Case, l: &mut Local) {
+    let mk = || serde_json::to_value(case).unwrap();
+    let (cx, cy) = (case.verts[0][0] as i64, case.verts[0][1] as i64);
+    let (px, py) = (case.verts[1][0] as i64, case.verts[1][1] as i64);
+    let r = case.r0 as i64;
+    let c = Circle2::new(cx as f64, cy as f64, r as f64);
+    for qx in -6..=6i64 {
+        for qy in -6..=6i64 {
+            if (qx, qy) == (px, py) {
+                continue;
+            }
+            l.eval();
+            let (dx, dy) = (qx - px, qy - py);
+            let a = dx * dx + dy * dy;
+            let b = 2 * (dx * px + dy * py);
+            let cc = px * px + py * py - r * r;
+            let disc = b * b - 4 * a * cc;
+            let p = Point2::new((cx + px) as f64, (cy + py) as f64);
+            let q = Point2::new((cx + qx) as f64, (cy + qy) as f64);
+            let seg = match Segment2::try_new(p, q) {
+                Ok(s) => s,
+                Err(_) => continue,
+            };
+            let got = match guarded(|| c.intersection(&seg)) {
+                Ok(g) => g,
+                Err(m) => {
+                    l.check("segment-circle intersection returns", "panic", false, mk, || m.clone());
+                    continue;
+                }
+            };
+            if disc == 0 {
+                l.gray("segment on a tangent line (count decided by rounding)");
+                continue;
+            }
+            let want = if disc < 0 {
+                0
+            } else {
+                let f1 = a + b + cc;
+                let t1 = (b <= 0 && cc >= 0) && (b + 2 * a >= 0 || f1 <= 0);
+                let t2 = (b <= 0 || cc <= 0) && (2 * a + b >= 0 && f1 >= 0);
+                t1 as usize + t2 as usize
+            };
+            let on_circle_end = cc == 0 || a + b + cc == 0;
+            l.bucket(if on_circle_end { "segment with an end point exactly on the circle" } else if want == 0 { "segment missing the circle" } else { "segment crossing the circle" });
+            l.outcome(hash_of(&("segexact", want, on_circle_end)));
+            l.check("segment-circle: the number of points is the number of roots inside the segment, end points included", "", got.len() == want, mk, || {
+                format!("centre ({},{}) r {} P ({},{}) Q ({},{}): {} point(s) {:?}, exact count {}", cx, cy, r, cx + px, cy + py, cx + qx, cy + qy, got.len(), got, want)
+            });
+            let ok = got.iter().all(|x| x.x.is_finite() && x.y.is_finite() && c.distance_to(x).abs() <= 1e-9 && crate::refmodel::poly_dist2(&[p, q], x) <= 1e-9);
+            l.check("segment-circle: points lie on the segment and on the circle", "", ok, mk, || format!("{:?}", got));
+        }
+    }
+}
+
 fn judge_curve(case: &Case, l: &mut Local) {
     let mk = || serde_json::to_value(case).unwrap();
     let pts: Vec<Point2> = case.verts.iter().map(|c| gen::p2([c[0], c[1]], 1.0)).collect();
@@ -378,7 +436,10 @@ fn judge_arc3(case: &Case, l: &mut Local) {
     let det = (p1.x - p0.x) * (p2.y - p0.y) - (p1.y - p0.y) * (p2.x - p0.x);
     l.eval();
     let scale = case.r0;
-    let collinear = det == 0.0;
+    // collinearity is decided exactly on the integer lattice coordinates of the case
+    let iv: Vec<(i64, i64)> = case.verts.iter().map(|c| (c[0] as i64, c[1] as i64)).collect();
+    let idet = (iv[1].0 - iv[0].0) * (iv[2].1 - iv[0].1) - (iv[1].1 - iv[0].1) * (iv[2].0 - iv[0].0);
+    let collinear = idet == 0;
     let circ = guarded(|| Circle2::from_3_points(p0, p1, p2));
     let circ = match circ {
         Ok(c) => c,
@@ -392,15 +453,13 @@ fn judge_arc3(case: &Case, l: &mut Local) {
         l.check("collinear points are rejected", "", circ.is_err(), mk, || format!("{:?}", p));
         return;
     }
-    // the collinearity test of the routine is an absolute |det| < 1e-6
-    let band = det.abs() < 1e-3 && det.abs() > 1e-9;
+    if scale < 0.01 {
+        l.bucket("general triple with coordinates below 0.01");
+    }
     match circ {
         Err(_) => {
-            if band {
-                l.gray("small-scale triple inside the absolute collinearity band");
-            } else {
-                l.check("non-collinear points give a circle", "", det.abs() <= 1e-9, mk, || format!("{:?} det {}", p, det));
-            }
+            // the lattice angles are never small: a triangle of any size and position gives a circle
+            l.check("non-collinear points give a circle", "", false, mk, || format!("{:?} (lattice determinant {}, scale {})", p, idet, scale));
             return;
         }
         Ok(c) => {
@@ -425,7 +484,7 @@ fn judge_arc3(case: &Case, l: &mut Local) {
     let a1 = c.angle_of_point(&p1);
     let rel = if arc.angle >= 0.0 { (a1 - arc.angle0).rem_euclid(TAU) } else { (arc.angle0 - a1).rem_euclid(TAU) };
     l.check("three-point arc passes through the second point", "", rel <= arc.angle.abs() + 1e-9, mk, || format!("middle point at {} of sweep {}", rel, arc.angle));
-    l.check("sweep sign equals the orientation of the triple", "", (arc.angle > 0.0) == (det > 0.0), mk, || format!("det {} sweep {}", det, arc.angle));
+    l.check("sweep sign equals the orientation of the triple", "", (arc.angle > 0.0) == (idet > 0), mk, || format!("lattice determinant {} sweep {}", idet, arc.angle));
     judge_aabb(&arc, &mk, "three-point", l);
 }
 
@@ -440,6 +499,7 @@ pub fn judge(case: &Case, l: &mut Local) {
         "outer" => judge_outer(case, l),
         "line" => judge_line(case, l),
         "curve" => judge_curve(case, l),
+        "segexact" => judge_segment_exact(case, l),
         "arc" => judge_arc(case, l),
         "arc3" => judge_arc3(case, l),
         _ => {}
@@ -482,6 +542,16 @@ pub fn cases(tier: Tier) -> Vec<Case> {
     for s in gen::seqs(lat.len(), 2, tier.pick(3, 4)) {
         out.push(Case { verts: s.iter().map(|i| lat[*i].to_vec()).collect(), ..base("curve") });
     }
+    // integer segments against integer circles (first end point listed, the second enumerated by the judge)
+    for centre in [[0, 0], [3, -2]] {
+        for r in [1.0, 2.0, 5.0] {
+            for px in -6..=6 {
+                for py in -6..=6 {
+                    out.push(Case { r0: r, verts: vec![centre.to_vec(), vec![px, py]], ..base("segexact") });
+                }
+            }
+        }
+    }
     for off in 0..3 {
         for r in [0.5, 4.0] {
             for dir in 0..arc_angles().len() {
@@ -506,11 +576,10 @@ pub fn cases(tier: Tier) -> Vec<Case> {
 
 pub fn run(tier: Tier) -> i32 {
     let mut cx = Ctx::new("C11", tier, "exploration");
-    cx.rule = "circle pairs: r0 in {0.5,1,2} x r1 in {0.5,1,2,3} x 6 regimes (concentric, nested, internally tangent, crossing, externally tangent, separate) x 13 directions (4 exactly representable) x 2 global offsets; external points at d/r in {1+1e-6, 1.2, sqrt2, 2, 5, 100} x 13 directions x 3 radii; outer tangents over radius pairs x 4 separations; lines/segments through a 7x7 grid of origins x 13 directions x 2 lengths; every small lattice curve against 5 circles; arcs over 3 centres x 2 radii x 30 start angles (k*pi/2 and +-1e-9) x 12 signed sweeps up to +-2pi; three-point arcs from every ordered triple of the 3x3 lattice at 3 scales and 2 offsets. distinct = distinct cases".into();
+    cx.rule = "circle pairs: r0 in {0.5,1,2} x r1 in {0.5,1,2,3} x 6 regimes (concentric, nested, internally tangent, crossing, externally tangent, separate) x 13 directions (4 exactly representable) x 2 global offsets; external points at d/r in {1+1e-6, 1.2, sqrt2, 2, 5, 100} x 13 directions x 3 radii; outer tangents over radius pairs x 4 separations; lines/segments through a 7x7 grid of origins x 13 directions x 2 lengths; every small lattice curve against 5 circles; every ordered pair of integer points of a 13x13 lattice as a segment against integer circles (r in {1,2,5}, two centres), count decided in exact integer arithmetic; arcs over 3 centres x 2 radii x 30 start angles (k*pi/2 and +-1e-9) x 12 signed sweeps up to +-2pi; three-point arcs from every ordered triple of the 3x3 lattice at 3 scales and 2 offsets. distinct = distinct cases".into();
     cx.bounds = json!({"directions": dirs().len(), "ratios": RATIOS, "separations": SEPS, "sweeps": SWEEPS.len(), "start_angles": arc_angles().len()});
-    cx.require(&["concentric", "nested", "internally tangent", "crossing", "externally tangent", "separate", "tangent from d/r = sqrt 2", "tangent from another distance ratio", "outer tangents, equal radii", "outer tangents, larger to smaller", "outer tangents, smaller to larger", "line tangent to the circle", "line missing the circle", "line crossing the circle", "curve against circle", "clockwise arc", "counter-clockwise arc", "collinear triple", "general triple"]);
+    cx.require(&["concentric", "nested", "internally tangent", "crossing", "externally tangent", "separate", "tangent from d/r = sqrt 2", "tangent from another distance ratio", "outer tangents, equal radii", "outer tangents, larger to smaller", "outer tangents, smaller to larger", "line tangent to the circle", "line missing the circle", "line crossing the circle", "curve against circle", "segment with an end point exactly on the circle", "segment missing the circle", "segment crossing the circle", "clockwise arc", "counter-clockwise arc", "collinear triple", "general triple", "general triple with coordinates below 0.01"]);
     cx.assume("exact tangency (one point) is demanded only along exactly representable directions; elsewhere either neighbour count is accepted (gray)");
-    cx.assume("three-point circle: triples with 1e-9 < |det| < 1e-3 fall inside the routine's absolute collinearity test and only 'Ok => passes through the points' is judged there");
     let cs = cases(tier);
     let l = sweep(&cs, judge);
     cx.absorb(l);
